@@ -129,18 +129,19 @@ class Job:
 class Driver:
     """One real Manager under test + the environment the spec leaves to the schedule."""
 
-    def __init__(self, sizes: dict[str, int], cap: int, fast_disk: bool = False, prefix: str = "t"):
+    def __init__(self, sizes: dict[str, int], cap: int, fast_disk: bool = False, prefix: str = "t", configured: int | None = None):
         self.sizes, self.cap, self.fast_disk = sizes, cap, fast_disk
         FakeSeg.segs = {}
         Clock.t = 1_000_000
         self._old = (DSM.get_capacity, DSM.SharedMemory, DSM.time, DISK.SharedMemory, DISK.multiprocessing)
-        DSM.get_capacity = lambda: 10 ** 15
+        # `configured`: the store is configured with more than /dev/shm offers (= cap); it has to work with what there is
+        DSM.get_capacity = (lambda: 10 ** 15) if configured is None else (lambda: cap)
         DSM.SharedMemory = FakeSeg
         DSM.time = Clock
         DISK.SharedMemory = FakeSeg
         DISK.multiprocessing = types.SimpleNamespace(resource_tracker=types.SimpleNamespace(unregister=lambda *a: None))
         DISK.open = _failing_open
-        self.m = DSM.Manager(prefix, cap)        # the executor passes "sCasc" + its host name
+        self.m = DSM.Manager(prefix, cap if configured is None else configured)        # the executor passes "sCasc" + its host name
         self.m.pageout_one = GateLock()
         self.front = ServerFront(self.m)
         self.jobs: list[Job] = []
@@ -385,11 +386,12 @@ def expected_answer(last: tuple):
     return None
 
 
-def replay(behaviour: list[tuple[str, dict]], sizes: dict[str, int], cap: int, fast_disk: bool = False, prefix: str = "t") -> dict:
+def replay(behaviour: list[tuple[str, dict]], sizes: dict[str, int], cap: int, fast_disk: bool = False, prefix: str = "t",
+           configured: int | None = None) -> dict:
     """Returns {'steps': n, 'mismatch': None | {...}, 'observed': [real projections]}.
     fast_disk: behaviours of Shm!FastDiskSpec; the real page-out jobs run synchronously inside the submit, the spec's job steps
     have no real counterpart and states are compared whenever the spec has no page-out job pending."""
-    d = Driver(sizes, cap, fast_disk, prefix)
+    d = Driver(sizes, cap, fast_disk, prefix, configured)
     observed = []
     try:
         for i, (label, s) in enumerate(behaviour[1:], start=2):
